@@ -112,8 +112,8 @@ def addsOf : List QEv → List AddRec
   | .fire _ :: es => addsOf es
   | .remove _ _ :: es => addsOf es
 
-/-- record `r` is withdrawn by one of the events (an `async_remove_answers` naming it) -/
-def withdrawnIn (evs : List QEv) (r : RecId) : Prop := ∃ c rm, QEv.remove c rm ∈ evs ∧ r ∈ rm
+/-- record `r` is withdrawn by one of the events (an `async_remove_answers` naming it) **no later than `D`** -/
+def withdrawnIn (evs : List QEv) (r : RecId) (D : Int) : Prop := ∃ c rm, QEv.remove c rm ∈ evs ∧ r ∈ rm ∧ c ≤ D
 
 /-- `Run p q clock evs q' clock' outs`: from `q` at time `clock` the events `evs` are all enabled in
 turn, lead to `q'` at `clock'`, and `outs` are the multicast batches with their send times -/
@@ -200,18 +200,24 @@ theorem Run.times {p : QP} {q : Queue} {clock : Int} {evs : List QEv} {q' : Queu
       | remove c rm => simp [Queue.stepQ] at ho
     · have := ih.2 o ho; omega
 
-theorem withdrawnIn_cons {e : QEv} {es : List QEv} {r : RecId} (h : withdrawnIn es r) : withdrawnIn (e :: es) r := by
-  obtain ⟨c, rm, h1, h2⟩ := h
-  exact ⟨c, rm, List.mem_cons_of_mem _ h1, h2⟩
+theorem withdrawnIn_cons {e : QEv} {es : List QEv} {r : RecId} {D : Int} (h : withdrawnIn es r D) : withdrawnIn (e :: es) r D := by
+  obtain ⟨c, rm, h1, h2, h3⟩ := h
+  exact ⟨c, rm, List.mem_cons_of_mem _ h1, h2, h3⟩
+
+theorem withdrawnIn_mono {evs : List QEv} {r : RecId} {D D' : Int} (h : withdrawnIn evs r D) (hD : D ≤ D') : withdrawnIn evs r D' := by
+  obtain ⟨c, rm, h1, h2, h3⟩ := h
+  exact ⟨c, rm, h1, h2, by omega⟩
 
 /-- **liveness over all runs**: a queued record is sent before its group's deadline, or is still queued, or has been
-withdrawn by an `async_remove_answers` of the run (the registry changed: the record must no longer be sent, C08) -/
+withdrawn — **before that deadline** — by an `async_remove_answers` of the run (the registry changed: the record must no longer be
+sent, C08).  The withdrawal that takes the record out of its group necessarily happens before the deadline: the group is still
+queued then, its timer is due no later than its deadline, and no block runs after a due timer. -/
 theorem Run.live {p : QP} (hp : p.ok) {q : Queue} {clock : Int} {evs : List QEv} {q' : Queue} {c' : Int}
     {outs : List (Int × Dict)} (hr : Run p q clock evs q' c' outs) :
     ∀ hist, QInv p hist clock q → ∀ (r : RecId) (D : Int),
       (∃ g ∈ q.groups, r ∈ g.answers.keys ∧ g.born + p.agg + p.addl ≤ D) →
       (∃ o ∈ outs, r ∈ o.2.keys ∧ o.1 ≤ D) ∨ (∃ g ∈ q'.groups, r ∈ g.answers.keys ∧ g.born + p.agg + p.addl ≤ D) ∨
-        withdrawnIn evs r := by
+        withdrawnIn evs r D := by
   induction hr with
   | nil q c => intro hist hI r D h; exact Or.inr (Or.inl h)
   | @cons q clock e es q' c' outs he _ ih =>
@@ -219,7 +225,7 @@ theorem Run.live {p : QP} (hp : p.ok) {q : Queue} {clock : Int} {evs : List QEv}
     obtain ⟨hI', _⟩ := hI.step hp he
     have cont : (∃ g ∈ ((q.stepQ p e).1).groups, r ∈ g.answers.keys ∧ g.born + p.agg + p.addl ≤ D) →
         (∃ o ∈ (q.stepQ p e).2 ++ outs, r ∈ o.2.keys ∧ o.1 ≤ D) ∨ (∃ g ∈ q'.groups, r ∈ g.answers.keys ∧ g.born + p.agg + p.addl ≤ D) ∨
-          withdrawnIn (e :: es) r := by
+          withdrawnIn (e :: es) r D := by
       intro hq
       rcases ih _ hI' r D hq with ⟨o, ho, h⟩ | h | h
       · exact Or.inl ⟨o, List.mem_append_right _ ho, h⟩
@@ -237,7 +243,14 @@ theorem Run.live {p : QP} (hp : p.ok) {q : Queue} {clock : Int} {evs : List QEv}
       · exact cont ⟨g', hg', hr', by rw [hb]; exact hD⟩
     | remove c rm =>
       by_cases hrm : r ∈ rm
-      · exact Or.inr (Or.inr ⟨c, rm, List.mem_cons_self, hrm⟩)
+      · -- the withdrawal is not later than the armed timer, which is not later than the group's deadline
+        have hne : q.groups.map Group.sk ≠ [] := by
+          intro hnil; rw [List.map_eq_nil_iff] at hnil; rw [hnil] at hg; cases hg
+        obtain ⟨d, hd⟩ := hI.sk.nonempty_timer hne
+        have hle := (hI.sk.timer_le hd g.sk (List.mem_map_of_mem hg)).1
+        have hcd := he.2 d hd
+        simp only [Sk.deadline, Group.sk] at hle
+        exact Or.inr (Or.inr ⟨c, rm, List.mem_cons_self, hrm, by omega⟩)
       · obtain ⟨g', hg', hr', hb⟩ := Queue.remove_keeps q rm hg hr hrm
         exact cont ⟨g', hg', hr', by rw [hb]; exact hD⟩
 
